@@ -260,6 +260,28 @@ func c11r4(r *R) {
 					}
 				}
 			}
+			if lit.Parent() == nil && isNewHelper(lit) {
+				// the literal became a method handed to closeOnce.Do as a method value: every use of that method is such
+				// a hand-over, and it is never called directly
+				uses, direct := 0, 0
+				for _, g := range r.modFuncsAll() {
+					for _, b := range g.Blocks {
+						for _, ins := range b.Instrs {
+							d, ok := ins.(ssa.CallInstruction)
+							if !ok {
+								continue
+							}
+							if staticCallee(d.Common()) == lit {
+								direct++
+							}
+							if calleeName(d.Common()) == "(*sync.Once).Do" && strings.HasSuffix(describe(refArgs(d.Common())[0]), ".closeOnce") && isClosureOf(describe(refArgs(d.Common())[1]), lit) {
+								uses++
+							}
+						}
+					}
+				}
+				okOnce = uses > 0 && direct == 0
+			}
 			r.check(okOnce, fname(fn)+"#close(closeCh)", c.Pos(), "closed through closeOnce", "closeCh is closed outside closeOnce: Shutdown followed by Close would panic on a double close")
 		}
 	}
